@@ -1,5 +1,7 @@
 import Propka.Model.Coupling
 import Propka.Model.Setup
+import Propka.Gen.Cfg
+import Mathlib.Tactic.SplitIfs
 import Mathlib.Algebra.Order.Field.Rat
 import Mathlib.Tactic.NormNum
 /-! # C01, continued - covalently coupled systems: one group of the system is left out of the printed tables
@@ -193,5 +195,41 @@ theorem covalentCoupling_sym (atoms : Scoring.Tab Scoring.AtomT) (n : Nat) (gato
       simp only [Array.getD_eq_getD_getElem?, Array.getElem?_replicate]
       split <;> rfl
     rw [e, e]; simp
+
+end Propka.Setup
+
+/-! ## ligand groups (`Model/Setup.lean`: `is_ligand_group_by_groups`) -/
+namespace Propka.Setup
+open Propka.Scoring
+
+/-- **Every group class the ligand classifier can name is a class the set-up model knows and a class of `propka.group`**
+    (the regenerated list of creatable classes), and has a residue type of its own there. -/
+theorem ligand_classes_known :
+    ∀ name ∈ ligandClassNames, (clsOf name).isSome = true ∧
+      (Propka.Gen.Cfg.creatable.any fun c => c.1 == name && c.2.2 != "") = true := by decide +kernel
+
+theorem mem_of_some (c x : String) (hx : x ∈ ligandClassNames) (h : some x = some c) : c ∈ ligandClassNames := by
+  injection h with e; subst e; exact hx
+
+/-- whatever the atoms, bonds and SYBYL types: the classifier names one of those classes or none -/
+theorem ligandClass_mem (atoms : Tab AtomT) (sy : Nat → String) (a : Nat) (c : String) (h : ligandClass atoms sy a = some c) :
+    c ∈ ligandClassNames := by
+  have M := mem_of_some c
+  unfold ligandClass at h
+  cases hk : syKind (sy a) <;> rw [hk] at h <;> simp only at h
+  · unfold clsNar at h; split_ifs at h; exact M _ (by simp [ligandClassNames]) h
+  · exact M _ (by simp [ligandClassNames]) h
+  · unfold clsN3 at h; split_ifs at h <;> exact M _ (by simp [ligandClassNames]) h
+  · exact M _ (by simp [ligandClassNames]) h
+  · unfold clsNpl3 at h; split at h
+    · split_ifs at h; exact M _ (by simp [ligandClassNames]) h
+    · exact absurd h (by simp)
+  · unfold clsC2 at h; simp only at h; split_ifs at h <;> exact M _ (by simp [ligandClassNames]) h
+  · exact M _ (by simp [ligandClassNames]) h
+  · exact M _ (by simp [ligandClassNames]) h
+  · unfold clsO3 at h; split_ifs at h <;> exact M _ (by simp [ligandClassNames]) h
+  · exact M _ (by simp [ligandClassNames]) h
+  · unfold clsS3 at h; split_ifs at h; exact M _ (by simp [ligandClassNames]) h
+  · exact absurd h (by simp)
 
 end Propka.Setup
